@@ -1,4 +1,6 @@
 """C08 — string metrics return true (weighted) edit distances in SciPy layout."""
+import functools
+
 import numpy as np
 import pandas as pd
 import scipy.cluster.hierarchy as hc
@@ -19,7 +21,8 @@ RULE = ("string collections of 0-12 strings, lengths 0-60 over arbitrary alphabe
         "cell, exact equality; calc_pdist_vector(X)[m*i + j - (i+2)(i+1)/2] == d(X[i] -> X[j]) for all i<j, length m(m-1)/2, "
         "accepted by squareform and linkage; functional pdist/cdist: metric callables (own lev, an asymmetric length function, "
         "a callable taking keyword arguments scale=/offset= to test forwarding) with explicit dtypes. Non-trivial: m >= 3 with "
-        "pairwise-distinct distances, or asymmetric weights with an indel pair, or a string longer than 255.")
+        "pairwise-distinct distances, or asymmetric weights with an indel pair, or a string longer than 255."
+        " Keyword forwarding through callables of several shapes (**options, keyword-only, callable object, undecorated wrapper, functools.partial, lambda).")
 ASSUMPTIONS = ["the functional helpers' default uint8 dtype is only used when every value is <= 255 (numpy raises OverflowError "
                "above that; documented, not asserted against)",
                "weighted distances stay below 2^24 so float32 results are exact"]
@@ -148,7 +151,32 @@ def f_mixed(a, b):
     return 0.5 * O.lev(a, b) + 0.25
 
 
-FUNCS = {"lev": f_lev, "asym": f_asym, "kw": f_kw, "real": f_real, "mixed": f_mixed, "default": None}
+def f_kw_star(a, b, **options):
+    """collects the forwarded options in a catch-all parameter"""
+    return options.get("scale", 1) * O.lev(a, b) + options.get("offset", 0)
+
+
+def f_kw_only(a, b, *, scale=1, offset=0):
+    return scale * O.lev(a, b) + offset
+
+
+class KwObject:
+    """a callable object (a configured scorer) taking the options through **kw"""
+
+    def __call__(self, a, b, **kw):
+        return f_kw(a, b, **kw)
+
+
+def _decorated(fn):
+    def wrapper(*args, **kwargs):          # a decorator closure without functools.wraps
+        return fn(*args, **kwargs)
+    return wrapper
+
+
+FUNCS = {"lev": f_lev, "asym": f_asym, "kw": f_kw, "real": f_real, "mixed": f_mixed, "default": None,
+         "kw_star": f_kw_star, "kw_only": f_kw_only, "kw_object": KwObject(), "kw_decorated": _decorated(f_kw),
+         "kw_partial": functools.partial(f_kw, scale=3), "kw_lambda": lambda a, b, **kw: f_kw(a, b, **kw)}
+KW_FUNCS = ["kw", "kw_star", "kw_only", "kw_object", "kw_decorated", "kw_partial", "kw_lambda"]
 
 
 def check_functional(case, rec):
@@ -161,7 +189,7 @@ def check_functional(case, rec):
     else:
         ref = (lambda a, b: O.lev(a, b)) if f is None else (lambda a, b: f(a, b, **kw))
     m = len(A)
-    rec.note(case, m >= 3 and (fname in ("asym", "kw", "real", "mixed")), [fname, case["dtype"], "kwargs" if kw else "no_kwargs"])
+    rec.note(case, m >= 3 and (fname in ("asym", "real", "mixed") or fname in KW_FUNCS), [fname, case["dtype"], "kwargs" if kw else "no_kwargs"])
     dtype = {"uint8": np.uint8, "int64": np.int64, "float64": np.float64, "default": None}[case["dtype"]]
     args = {}
     if f is not None:
@@ -240,15 +268,17 @@ def metric_case(draw, tier="quick"):
 def functional_case(draw, tier="quick"):
     A = draw(string_list(max_n=8, long_ok=False))
     B = draw(string_list(max_n=5, long_ok=False))
-    fname = draw(st.sampled_from(["default", "lev", "asym", "kw", "kw", "real", "mixed"]))
+    fname = draw(st.sampled_from(["default", "lev", "asym", "kw", "real", "mixed"] + KW_FUNCS))
     if fname == "mixed" and A:
         B = [A[0]] + list(B)           # the first pair evaluated is a pair of identical strings
     case = {"A": A, "B": B, "func": fname, "dtype": draw(st.sampled_from(["default", "uint8", "int64", "float64"])),
             "container": draw(st.sampled_from(["list", "tuple", "ndarray", "series_str"]))}
     if fname in ("real", "mixed"):
         case["dtype"] = "float64"
-    if fname == "kw" and draw(st.booleans()):
+    if fname in KW_FUNCS and draw(st.integers(0, 3)):
         case["kwargs"] = {"scale": draw(st.integers(1, 5)), "offset": draw(st.integers(0, 9))}
+        if draw(st.integers(0, 3)) == 0:
+            del case["kwargs"]["scale" if draw(st.booleans()) else "offset"]
     if fname == "default" and draw(st.booleans()):
         case["kwargs"] = {"weights": draw(st.sampled_from([[1, 1, 2], [1, 2, 1], [2, 1, 3]]))}
     case["same_object"] = draw(st.booleans())
